@@ -86,6 +86,23 @@ def selectOp : Handler := fun req => do
   let branch := mode ++ s!"{sel.length}/{ops.length}"
   pure (Json.mkObj [("model", modelJ), ("match", modelJ == implJ), ("judge", judge), ("branch", branch)])
 
-def ops : List (String × Handler) := [("registry.build", buildOp), ("registry.select", selectOp)]
+/-- `registry.listwidth` (real binary): the identifiers read from `list operations` as a script sees it (stdout not a
+terminal, 80 columns) must be the identifiers the same command prints on a wide terminal — every printed id has to be usable
+with `--only` / `--exclude`.  F08-5: the table WRAPS a long id (or an id next to a long path) over several lines. -/
+def listWidthOp : Handler := fun req => do
+  let impl ← field req "impl"
+  let strs (k : String) : List String := ((arr (fieldD impl k (Json.arr #[]))).toOption.getD []).filterMap fun x => x.getStr?.toOption
+  let wide := strs "ids_wide"
+  let narrow := strs "ids_narrow"
+  let judge :=
+    if wide.isEmpty then verdict false [] "`list operations` printed no row"
+    else if narrow == wide then verdict true []
+    else
+      -- the class: nothing is lost or changed, the ids are only cut into pieces (the pieces, concatenated, are the ids)
+      let pieces := String.join narrow == String.join wide
+      verdict false (if pieces then ["KnownListWrapsIds"] else []) s!"at 80 columns `list operations` prints the identifiers {narrow.take 6}, on a wide terminal {wide.take 4}"
+  pure (Json.mkObj [("model", Json.null), ("match", true), ("judge", judge), ("branch", Json.str (if narrow == wide then "same" else "wrapped"))])
+
+def ops : List (String × Handler) := [("registry.build", buildOp), ("registry.select", selectOp), ("registry.listwidth", listWidthOp)]
 
 end Oas3.Driver.Registry
